@@ -46,14 +46,15 @@ def eer_event(ev, s, o, h, g):
     try:
         t, ee = s.eer()
         t, ee = float(t), float(ee)
-        fr = Fraction(ee).limit_denominator(5000)
+        coarse = g.name.startswith("clustered")     # not an affine image: the value is no small rational
+        fr = Fraction(ee).limit_denominator(1000000 if coarse else 5000)
         e["e"] = [fr.numerator, fr.denominator] if abs(float(fr) - ee) <= 1e-8 else [0, 0]
         e["e9"] = int(round(ee * 1e9))
         e["e_is_zero"] = bool(ee == 0.0)
         proj = sd.ThrProjector(g, sorted(set(o["pos"]) | set(o["neg"])))
         ta = proj.abs_coord(t)
         ft = Fraction(ta).limit_denominator(5000)
-        e["t"] = [ft.numerator, ft.denominator] if abs(float(ft) - ta) <= 1e-6 else [0, 0]
+        e["t"] = [ft.numerator, ft.denominator] if abs(float(ft) - ta) <= 1e-6 and not coarse else [0, 0]
         e["t6"] = int(round(ta * 1e6))
         m = s.cm(t).matrix
         e["cm"] = [int(m[0, 0]), int(m[0, 1]), int(m[1, 0]), int(m[1, 1])]
@@ -154,7 +155,12 @@ def run(ctx: core.Ctx):
         if len(o["pos"]) == 0 or len(o["neg"]) == 0:
             continue
         g = base[(k + ctx.seed) % 2]
-        events += events_for_case(o, len(used), g, AFF[(k + ctx.seed) % len(AFF)], ids, relations=True)
+        if k % 4 == 3:
+            # all scores but the two extreme ones in a tight cluster (1e-12 apart) in the middle of [0, 1]
+            allv = o["pos"] + o["neg"]
+            g = gamma.clustered(min(allv), max(allv))
+        events += events_for_case(o, len(used), g, AFF[(k + ctx.seed) % len(AFF)], ids,
+                                  relations=not g.name.startswith("clustered"))
         used.append(o)
         ctx.nontrivial.add(json.dumps(o, sort_keys=True))
     # very large, well separated data (EER of a few samples in several hundred thousand)
